@@ -14,12 +14,13 @@ import (
 )
 
 // graph: start -> T (declared result r) -> X: r==true -> A -> endA ; default -> B -> endB
-func build() *drv.Graph {
-	g := drv.NewGraph("c08")
+func build(defRetries string) *drv.Graph {
+	g := drv.NewGraph("c08" + defRetries)
 	s, t, x := g.Add(drv.Start, "start"), g.Add(drv.Task, "T"), g.Add(drv.XOR, "X")
 	t.Tag = "serviceTask"
 	t.Results = []string{"r"}
 	t.RTypes = []string{"boolean"}
+	t.Retries = defRetries // retries configured on the task definition; the handler's count overrides it
 	a, ea, b, eb := g.Add(drv.Task, "A"), g.Add(drv.End, "endA"), g.Add(drv.Task, "B"), g.Add(drv.End, "endB")
 	g.Link(s, t, nil)
 	g.Link(t, x, nil)
@@ -128,8 +129,8 @@ func histories(maxRetries int) []history {
 	return out
 }
 
-func body(hists []history) func() {
-	g := build()
+func body(hists []history, defRetries string) func() {
+	g := build(defRetries)
 	defs := g.Parse()
 	return func() {
 		hs := hists[verifrt.Choose(len(hists))]
@@ -283,7 +284,22 @@ func init() {
 			}
 		}
 		add := func(name string, hs []history, d, split int) {
-			sc := &h.Scn{Name: fmt.Sprintf("C08/answers/%s/d%d", name, d), Body: body(hs), Opts: verifrt.Options{Bound: d, UseCache: true}}
+			for _, def := range []string{"", "2"} {
+				if def != "" && d > 0 && name != "small" {
+					continue
+				}
+				n := name
+				if def != "" {
+					n += "/task-definition-retries=" + def
+				}
+				sc := &h.Scn{Name: fmt.Sprintf("C08/answers/%s/d%d", n, d), Body: body(hs, def), Opts: verifrt.Options{Bound: d, UseCache: true}}
+				sc.Weight = len(hs) * (1 + 1000*d*d)
+				sc.Split = split
+				out = append(out, sc)
+			}
+		}
+		_ = func(name string, hs []history, d, split int) {
+			sc := &h.Scn{Name: fmt.Sprintf("C08/answers/%s/d%d", name, d), Body: body(hs, ""), Opts: verifrt.Options{Bound: d, UseCache: true}}
 			sc.Weight = len(hs) * (1 + 1000*d*d)
 			sc.Split = split
 			out = append(out, sc)
